@@ -191,18 +191,7 @@ impl SrtpSession {
 
     pub fn unprotect_rtp(&mut self, packet: SrtpPacket) -> SrtpResult<RtpPacket> {
         let ssrc = packet.header.ssrc;
-        self.evict_stale_rx(ssrc);
-        let ctx = match self.rx_contexts.entry(ssrc) {
-            Entry::Occupied(e) => e.into_mut(),
-            Entry::Vacant(e) => e.insert(SrtpContext::new(
-                ssrc,
-                self.profile,
-                self.rx_keying.clone(),
-                SrtpDirection::Receiver,
-            )?),
-        };
-        ctx.last_used = std::time::Instant::now();
-        ctx.unprotect(packet)
+        self.with_rx_context(ssrc, |ctx| ctx.unprotect(packet))
     }
 
     pub fn protect_rtcp(&mut self, packet: &mut Vec<u8>) -> SrtpResult<()> {
@@ -232,18 +221,39 @@ impl SrtpSession {
         }
         let ssrc = u32::from_be_bytes([packet[4], packet[5], packet[6], packet[7]]);
 
-        self.evict_stale_rx(ssrc);
-        let ctx = match self.rx_contexts.entry(ssrc) {
-            Entry::Occupied(e) => e.into_mut(),
-            Entry::Vacant(e) => e.insert(SrtpContext::new(
-                ssrc,
-                self.profile,
-                self.rx_keying.clone(),
-                SrtpDirection::Receiver,
-            )?),
+        self.with_rx_context(ssrc, |ctx| ctx.unprotect_rtcp(packet))
+    }
+
+    /// Run a receive operation on the context of `ssrc`. Receiver state (a new
+    /// per-SSRC context, `last_used`, eviction of stale contexts) changes only
+    /// when the datagram authenticates: an unknown SSRC is tried on a temporary
+    /// context that is stored on success and dropped otherwise, so forged SSRCs
+    /// can neither fill the table nor push a genuine context out of it.
+    fn with_rx_context<T>(
+        &mut self,
+        ssrc: u32,
+        op: impl FnOnce(&mut SrtpContext) -> SrtpResult<T>,
+    ) -> SrtpResult<T> {
+        let out = match self.rx_contexts.get_mut(&ssrc) {
+            Some(ctx) => {
+                let out = op(ctx)?;
+                ctx.last_used = std::time::Instant::now();
+                out
+            }
+            None => {
+                let mut ctx = SrtpContext::new(
+                    ssrc,
+                    self.profile,
+                    self.rx_keying.clone(),
+                    SrtpDirection::Receiver,
+                )?;
+                let out = op(&mut ctx)?;
+                self.rx_contexts.insert(ssrc, ctx);
+                out
+            }
         };
-        ctx.last_used = std::time::Instant::now();
-        ctx.unprotect_rtcp(packet)
+        self.evict_stale_rx(ssrc);
+        Ok(out)
     }
 
     /// Evict stale transmit contexts once the map crosses the high-water mark.
